@@ -46,7 +46,8 @@ CanonStates ==
     V("bad",   "self", "P", "raw", TRUE),     \* malformed entry around a good raw signature
     V("bad",   "self", "P", "gpg", TRUE) }    \* malformed entry around a good OpenPGP signature
 
-AltStates  == { Absent, V("raw", "self", "P", "raw", TRUE), V("gpg", "self", "P", "gpg", TRUE) }
+AltStates  == { Absent, V("raw", "self", "P", "raw", TRUE), V("gpg", "self", "P", "gpg", TRUE),
+                V("bad", "none", "-", "-", FALSE) }        \* junk filed under another spelling of key 1
 JunkStates == { Absent, V("bad", "none", "-", "-", FALSE),
                 V("raw", "self", "P", "raw", TRUE), V("gpg", "self", "P", "gpg", TRUE) }
 
